@@ -231,6 +231,12 @@ class Check:
         self.cov = {"samples": []}
         self.assumptions = []
         self.notes = []
+        # replay files of earlier runs of this property are stale
+        rd = os.path.join(VERIF, "replays")
+        if os.path.isdir(rd):
+            for f in os.listdir(rd):
+                if f.startswith(pid + "-"):
+                    os.remove(os.path.join(rd, f))
 
     def violation(self, what, replay):
         """Registers a violation; the replay record is written to /verif/replays and the VIOLATION line is printed."""
